@@ -1124,6 +1124,16 @@ private:
       {
         try { c.listenerReady->set_value(false); } catch (...) {}
       }
+      if (c.t == Cmd::Connect)
+      {
+        // connect() has already handed this id to its caller: it must still see a close
+        decltype(_cbs.onClose) closeCb;
+        { std::lock_guard<std::mutex> g(_cbMutex); closeCb = _cbs.onClose; }
+        if (closeCb)
+        {
+          closeCb(c.c.sid, TransportErrorInfo{TransportError::ShuttingDown, "shutdown", 0, 0});
+        }
+      }
     }
     if (_epollFd >= 0)
     {
